@@ -22,6 +22,83 @@ EXPLANATION = (
 )
 
 
+def check_default_method(F, rep):
+    """ADAPT-DEFAULT: the two provided methods without a method argument (`adapt_from_unclamped`, `adapt_into_unclamped`) are documented to
+    use Bradford and must use the *same* method -- adapting there with one and back with the other is only the identity if they agree."""
+    got = {}
+    for path in ("chromatic_adaptation::AdaptFromUnclamped::adapt_from_unclamped", "chromatic_adaptation::AdaptIntoUnclamped::adapt_into_unclamped"):
+        try:
+            b = F.fn(path)
+        except facts.AnchorMissing as ex:
+            rep.fail("ANCHOR", "adapt-default:" + path.split("::")[-1], str(ex))
+            continue
+        ms = set()
+        for node, _p in facts.walk(b["body"]):
+            c = node.get("c")
+            if isinstance(c, dict) and "d" in c and F.S[c["d"]].split("::")[-1].endswith("_with"):
+                ms |= {F.S[a] for a in c.get("a", []) if F.S[a].startswith("lms::matrix::")}
+        got[path.split("::")[-1]] = ms
+        rep.ob("ADAPT", "default-method:" + path.split("::")[-1], ms == {"lms::matrix::Bradford"}, "forwards to the _with form with %s (documented default: Bradford)" % sorted(ms), F.loc(b))
+    if len(got) == 2:
+        a, b_ = list(got.values())
+        rep.ob("ADAPT", "default-methods-agree", a == b_ and len(a) == 1, "from: %s, into: %s" % (sorted(a), sorted(b_)))
+
+
+def check_matrix_direction(F, rep):
+    """MATRIX-DIR: `Xyz::matrix_from_rgb` is built from RGB->XYZ matrices only and `Rgb::matrix_from_xyz` from XYZ->RGB ones, where a matrix's
+    direction is that of its source (`RgbSpace::rgb_to_xyz_matrix` / `matrix::rgb_to_xyz_matrix`: RGB->XYZ; `RgbSpace::xyz_to_rgb_matrix`:
+    XYZ->RGB) flipped once per `matrix_inverse` it passes through (as a call around it, or as `.map(matrix_inverse)` on it).  A fallback that
+    takes the other direction's pre-defined matrix without inverting it converts white to a non-white."""
+    WANT = {"matrix_from_rgb": "rgb->xyz", "matrix_from_xyz": "xyz->rgb"}
+    n = 0
+    for b in F.bodies:
+        if b["name"] not in WANT or "::test" in b["path"] or b["dk"] not in ("Fn", "AssocFn"):
+            continue
+        if not b["file"].endswith(("palette/src/xyz.rs", "rgb/rgb.rs")):
+            continue
+        n += 1
+        problems, seen = [], 0
+
+        def fn_of(node):
+            c = node.get("c")
+            if isinstance(c, dict) and "d" in c:
+                return F.S[c["d"]]
+            r = node.get("res") if node.get("k") == "path" else None
+            if isinstance(r, dict) and isinstance(r.get("c"), dict) and "d" in r["c"]:
+                return F.S[r["c"]["d"]]
+            return None
+
+        def is_inv(node):
+            f = fn_of(node)
+            return bool(f) and f.endswith("matrix_inverse")
+        for node, parents in facts.walk(b["body"]):
+            f = fn_of(node)
+            if not f or not f.endswith(("rgb_to_xyz_matrix", "xyz_to_rgb_matrix")):
+                continue
+            seen += 1
+            base = "rgb->xyz" if f.endswith("rgb_to_xyz_matrix") else "xyz->rgb"
+            flips = 0
+            chain = list(parents) + [node]
+            for i_, p_ in enumerate(chain[:-1]):
+                child = chain[i_ + 1]
+                # inside the argument list of matrix_inverse(..)
+                if p_.get("k") == "call" and is_inv(p_) and any(child is a_ for a_ in p_.get("a", [])):
+                    flips += 1
+                # receiver of .map(matrix_inverse) / .map(|m| matrix_inverse(m))
+                if p_.get("k") == "mcall" and p_.get("n") in ("map", "and_then") and child is p_.get("r") \
+                        and any(is_inv(x) for a_ in p_.get("a", []) for x, _q in facts.walk(a_)):
+                    flips += 1
+            d = base if flips % 2 == 0 else ("xyz->rgb" if base == "rgb->xyz" else "rgb->xyz")
+            if d != WANT[b["name"]]:
+                problems.append("%s (a %s matrix%s) flows into the %s matrix" % (f.split("::")[-1] if "RgbSpace" not in f else "RgbSpace::" + f.split("::")[-1], base,
+                                                                               ", inverted %d time(s)" % flips if flips else ", not inverted", WANT[b["name"]]))
+        if not seen:
+            problems.append("no matrix source found")
+        rep.ob("MATRIX-DIR", "%s[%s]" % (b["name"], b["_impl"]["self_s"] if b["_impl"] else b["path"]), not problems,
+               "; ".join(problems) if problems else "%d matrix source(s), each of direction %s after its inversions" % (seen, WANT[b["name"]]), F.loc(b))
+    rep.floor("matrix_from_rgb / matrix_from_xyz", n, 2)
+
+
 def run(F, rep, tier="quick", extra=None, only=None):
     rep.trusted += ["rustc name resolution / type check", "operator table of rules/sym.py", "ASTM E308 / CIE 15 white point table and the standards' primaries (rules/consts.py)",
                     "axiom cbrt(x)^3 = x; white point components positive"]
@@ -34,6 +111,8 @@ def run(F, rep, tier="quick", extra=None, only=None):
     check_matrix_algebra(F, rep)
     check_adaptation(F, rep)
     check_neutrals(F, rep, S)
+    check_matrix_direction(F, rep)
+    check_default_method(F, rep)
     from . import aliasrule
     aliasrule.check(F, rep, "C14", 2)
     return {"level": "other"}
